@@ -250,6 +250,7 @@ def run_layout(O, layout, K, in_kinds=("Number", "X", "Z", "C"), exp_kinds=("Num
             own = [expansion_scenario(layout, kinds, f["values"], f["bits"], rp) for rp in (1, 2, 3)]
             if first_kinds:
                 own = two_row_scenarios(layout, first_kinds, kinds, f["values"], f["bits"]) + own
+            own = own + wide_scenarios()
             from .refmodel import reference_battery
             return (own + reference_battery(("expansion",))) if rep is None else (rep.battery + own)
 
@@ -573,3 +574,36 @@ def fault_expansion_battery():
 def expansion_survives_faults(O):
     from . import dri
     dri.glue_keeps_state(O, dri.Rep({"family": "expansion"}, fault_expansion_battery(), B.literal_judge))
+
+
+@obligation("C05/provided-write-forwards", profiles=("dev",),
+            desc="the provided TestDriver::write_input forwards every call, once, with the same inputs, to the output-reading call "
+                 "- whatever the changed flags say - so a driver that does not override it still sees all three phases of a clock row")
+def provided_write_forwards(O):
+    from . import dri
+    dri.default_write_input(O, dri.Rep({"family": "expansion"}, B.protocol_battery(), B.protocol_judge))
+
+
+def wide_scenarios():
+    """more than 64 header columns: input column j and expected column 64 + j must not be confused (masks by column number)"""
+    out = []
+    for ncol_in in (65, 70):
+        ins = ["I%d" % i for i in range(ncol_in)]
+        outs = ["O%d" % i for i in range(4)]
+        sigs = [("in", n_, 1, 0) for n_ in ins] + [("out", n_, 8) for n_ in outs]
+        row = ["0"] * ncol_in + ["X", "1", "X", "2"]
+        row[1] = "1"
+        src = " ".join(ins + outs) + "\n" + " ".join(row) + "\n"
+        want_in = ["0"] * ncol_in
+        want_in[1] = "1"
+        out.append(Scenario(src, sigs, default_answer=[0, 1, 0, 2], max_rows=40,
+                            expect={"row_inputs": [want_in], "row_expected": [["X", "1", "X", "2"]]},
+                            note="%d input columns, X in expected columns beyond column 64: one row, nothing expanded" % ncol_in))
+        row2 = list(row)
+        row2[0] = "X"
+        w0, w1 = list(want_in), list(want_in)
+        w1[0] = "1"
+        out.append(Scenario(" ".join(ins + outs) + "\n" + " ".join(row2) + "\n", sigs, default_answer=[0, 1, 0, 2], max_rows=40,
+                            expect={"row_inputs": [w0, w1], "row_expected": [["X", "1", "X", "2"]] * 2},
+                            note="%d input columns, X in input column 0 and in expected columns beyond 64: two rows" % ncol_in))
+    return out
